@@ -5,9 +5,10 @@ from props import c06
 
 PARTIAL = ("proved for every usage, table and text: the binding rule of formals (C05_binding), the three misuse errors with "
            "their payloads, expansion to nothing for body-less macros, and that the substituted body is preprocessed again "
-           "with the table at the point of use (C05_expands_with_current_table); the textual substitution itself "
-           "(split_text, paste, stringification) is tied by correspondence of the evaluator model and by an independent "
-           "reference reading of 22.5.1 on generated define/usage programs, not yet by a theorem")
+           "with the table at the point of use (C05_expands_with_current_table); whole-word substitution on bodies without "
+           "quote, slash, backslash, backtick (C05_split_plain, C05_whole_word_substitution). The textual substitution on "
+           "bodies with strings, comments, paste and stringification is tied by correspondence of the evaluator model and "
+           "by an independent reference reading of 22.5.1 on generated define/usage programs, not by a theorem")
 
 NAMES = ["M", "N1", "add", "cat", "str", "W"]
 FORMALS = ["a", "b", "x", "y1", "_z"]
